@@ -2,7 +2,7 @@
   C19 — imports.ShouldBuild and MatchFile implement Go's build-constraint rules.
 
   Model: GIV.Model.Build (mirrors build.go; constants and deciding expressions from
-  GIV.Gen.Imports).  Specification: GIV.Lemmas.ImportsBuildSpec (Term / Line / evalLine,
+  GIV.Gen.ImportsBuild).  Specification: GIV.Lemmas.ImportsBuildSpec (Term / Line / evalLine,
   linesOf / leadingBlock, suffixUnselected), written from the property statement with the
   property's own constants.  All theorems hold for every non-ASCII letter-or-digit predicate `U`.
 -/
